@@ -765,7 +765,7 @@ func teLabels(x *verifkit.Ctx, st teStats) {
 
 func traceEngineSpec(pid, unit, extra string, nontrivial func(teStats) bool, minFrac map[string]float64) verifkit.Spec[teCase] {
 	return verifkit.Spec[teCase]{
-		Property: pid, Unit: unit,
+		Property: pid, Unit: unit, CrashReplay: true,
 		Rule: teRule + "; oracle: every returned trace carries exactly the spans written for it (ids, bodies, projected tags), no trace twice, a query " +
 			"by id returns exactly the stored traces asked for (up to the limit), an ordered query returns min(limit, traces of the service - offset) " +
 			"distinct traces of the service (their order is C09's subject); " + extra,
